@@ -56,19 +56,31 @@ def _param_table():
     eps = 1e-9
     T = []
     def add(name, f, expect): T.append((name, f, expect))
-    for fsv, ex in ((fs, 'ok'), (0, 'ValueError'), (-1, 'ValueError'), (-eps, 'ValueError')):
+    def variants(v):
+        """the same number as a python number and as numpy scalars"""
+        return [v, np.float64(v)] + ([np.int64(v)] if isinstance(v, int) else [np.float32(v)] if abs(v) in (0.5, 2.0) else [])
+    for fs0, ex in ((fs, 'ok'), (0, 'ValueError'), (-1, 'ValueError'), (-eps, 'ValueError')):
+      for fsv in variants(fs0):
+        add('Bycycle.fit fs=%r' % fsv, lambda v=fsv: Bycycle(thresholds={}).fit(sig, v, fr), ex)
         add('compute_features fs=%r' % fsv, lambda v=fsv: compute_features(sig, v, fr, threshold_kwargs={}), ex)
         add('find_extrema fs=%r' % fsv, lambda v=fsv: find_extrema(sig, v, fr), ex)
         add('compute_shape_features fs=%r' % fsv, lambda v=fsv: compute_shape_features(sig, v, fr), ex)
     for key in ('amp_fraction_threshold', 'amp_consistency_threshold', 'period_consistency_threshold', 'monotonicity_threshold'):
-        for v, ex in ((0, 'ok'), (1, 'ok'), (0.5, 'ok'), (-eps, 'ValueError'), (1 + eps, 'ValueError'), (-1, 'ValueError'), (2, 'ValueError')):
+        for v0, ex in ((0, 'ok'), (1, 'ok'), (0.5, 'ok'), (-eps, 'ValueError'), (1 + eps, 'ValueError'), (-1, 'ValueError'), (2, 'ValueError')):
+          for v in variants(v0):
             add('detect_bursts_cycles %s=%r' % (key, v), lambda k=key, v=v: detect_bursts_cycles(df.copy(), **{k: v}), ex)
             add('compute_features %s=%r' % (key, v), lambda k=key, v=v: compute_features(sig, fs, fr, threshold_kwargs={k: v}), ex)
-    for v, ex in ((0, 'ok'), (3, 'ok'), (-1, 'ValueError'), (-eps, 'ValueError')):
+            add('Bycycle(thresholds) %s=%r' % (key, v), lambda k=key, v=v: Bycycle(thresholds={k: v}).fit(sig, fs, fr), ex)
+            add('Bycycle(shorthand thresholds) %s=%r' % (key, v), lambda k=key, v=v: Bycycle(thresholds={k[:-len('_threshold')]: v}).fit(sig, fs, fr), ex)
+    for v0, ex in ((0, 'ok'), (3, 'ok'), (-1, 'ValueError'), (-eps, 'ValueError')):
+      for v in variants(v0):
+        add('Bycycle(thresholds) min_n_cycles=%r' % v, lambda v=v: Bycycle(thresholds={'min_n_cycles': v}).fit(sig, fs, fr), ex)
         add('check_min_burst_cycles min_n_cycles=%r' % v, lambda v=v: check_min_burst_cycles(np.array([True, False, True]), v), ex)
         add('compute_features min_n_cycles=%r' % v, lambda v=v: compute_features(sig, fs, fr, threshold_kwargs={'min_n_cycles': v}), ex)
         add('amp min_n_cycles=%r' % v, lambda v=v: detect_bursts_amp(dfa.copy(), min_n_cycles=v), ex)
-    for v, ex in ((0, 'ok'), (1, 'ok'), (-eps, 'ValueError'), (1 + eps, 'ValueError')):
+    for v0, ex in ((0, 'ok'), (1, 'ok'), (-eps, 'ValueError'), (1 + eps, 'ValueError')):
+      for v in variants(v0):
+        add('Bycycle(amp) burst_fraction_threshold=%r' % v, lambda v=v: Bycycle(burst_method='amp', thresholds={'burst_fraction_threshold': v}).fit(sig, fs, fr), ex)
         add('detect_bursts_amp burst_fraction_threshold=%r' % v, lambda v=v: detect_bursts_amp(dfa.copy(), burst_fraction_threshold=v), ex)
         add('compute_features amp burst_fraction_threshold=%r' % v,
             lambda v=v: compute_features(sig, fs, fr, burst_method='amp', threshold_kwargs={'burst_fraction_threshold': v}), ex)
